@@ -154,7 +154,7 @@ def step(t, k):
     return t
 
 
-def threshold_event(ev, s, o, m, qs, gam, h=1, extra_targets=(), form=None, only_targets=None):
+def threshold_event(ev, s, o, m, qs, gam, h=1, extra_targets=(), form=None, only_targets=None, order=None):
     """One vectorised threshold_at_<m> query per method, with the counts the same
     object reports at, just below and just above every returned threshold."""
     rs = sorted(set(only_targets)) if only_targets is not None else sorted(set(targets(o, m, qs)) | set(extra_targets))
@@ -167,8 +167,16 @@ def threshold_event(ev, s, o, m, qs, gam, h=1, extra_targets=(), form=None, only
         proj = ThrProjector(gam, S)
         fn = getattr(s, "threshold_at_" + m)
         arg = rf if form is None else form(rf)
+        if order is not None:                   # targets passed in the given (unsorted) order, as a 2-D
+            arg = rf[np.asarray(order)]         # array when their number is even
+            if len(rf) % 2 == 0:
+                arg = arg.reshape(2, -1)
         for key, method in METHODS.items():
             t = np.asarray(fn(arg, method=method), dtype=float)
+            if order is not None and t.shape == arg.shape:
+                back = np.empty(len(rf))
+                back[np.asarray(order)] = t.ravel()
+                t = back
             if t.shape != rf.shape:
                 raise AssertionError(f"shape {t.shape} for targets {rf.shape}")
             e[key] = [proj(x) for x in t]
@@ -192,6 +200,34 @@ def threshold_event(ev, s, o, m, qs, gam, h=1, extra_targets=(), form=None, only
                 if rs[j].denominator == 1:                      # a Python int target (0, 1, ...)
                     xi = fn(int(rs[j]), method=method)
                     ok = ok and np.ndim(xi) == 0 and float(xi) == float(t[j])
+            e["scalar_same"] = bool(ok)
+    except Exception as ex:  # noqa
+        e["exc"] = exc_str(ex)
+    return e
+
+
+def threshold_big_event(ev, s, m, pop, ks, h=1):
+    """Threshold setting on an object too large to be mirrored in the specification (1e5..1e6 scores):
+    the judge works on the counts alone.  Targets are k/(2*pop) for k in ks (goal2 = k = twice the
+    target count); low/high = the counts the same object reports beyond both ends of the scores."""
+    ks = sorted(set(ks))
+    e = ev("threshold_big", h=h, m=m, pop=int(pop), goal2=[int(k) for k in ks], low=0, high=0,
+           c={"lin": [], "lo": [], "hi": []}, scalar_same=True)
+    try:
+        rf = np.array([k / (2.0 * pop) for k in ks])
+        ends = counts(s, m, np.array([-np.inf, np.inf]))
+        e["low"], e["high"] = int(min(ends)), int(max(ends))
+        fn = getattr(s, "threshold_at_" + m)
+        for key, method in METHODS.items():
+            t = np.asarray(fn(rf, method=method), dtype=float)
+            if t.shape != rf.shape:
+                raise AssertionError(f"shape {t.shape} for targets {rf.shape}")
+            c, cb, ca = counts(s, m, t), counts(s, m, step(t, -4)), counts(s, m, step(t, 4))
+            e["c"][key] = [[int(a), int(b), int(d)] for a, b, d in zip(c, cb, ca)]
+            ok = e["scalar_same"]
+            for j in sorted({0, 1, len(ks) // 2, len(ks) - 1} & set(range(len(ks)))):
+                x = fn(float(rf[j]), method=method)
+                ok = ok and np.ndim(x) == 0 and float(x) == float(t[j])
             e["scalar_same"] = bool(ok)
     except Exception as ex:  # noqa
         e["exc"] = exc_str(ex)
